@@ -1,6 +1,7 @@
 /-
 C07 — Multipart composition: every segment fits, is labelled, and loses nothing.
 -/
+import Smpp.Properties.SrcCompose
 import Smpp.Proofs.SplitterProofs
 import Smpp.Proofs.CombinerProofs
 import Smpp.Proofs.Gsm7Pack
